@@ -55,6 +55,12 @@ class PBool:
             p = self.p
             if hasattr(p, "_pv_as_real"):
                 p = p._pv_as_real(ex)
+            if isinstance(p, float) and p != p:
+                # `u < nan` is False for every u
+                self.value = False
+                self.w.prob.append((self.k, False, 0.0))
+                self.w.prob_args.append(p)
+                return False
             p = to_real(p) if is_z3(p) or not isinstance(p, float) else p
             self.w.prob_args.append(p)
             c = ctx.choose(2, f"draw{self.k}")
@@ -80,12 +86,24 @@ class PBool:
         return NotImplemented
 
 
+def _np_minimum(ex, a, b):
+    """numpy.minimum on scalars: NaN propagates (unlike the builtin min)"""
+    for x in (a, b):
+        if isinstance(x, float) and x != x:
+            return float("nan")
+    if is_z3(a) or is_z3(b):
+        if isinstance(a, float) or isinstance(b, float):
+            raise OutsideSubset("np.minimum with an infinite operand")
+        return z3.If(to_real(a) <= to_real(b), to_real(a), to_real(b))
+    return min(a, b)
+
+
 def make_interp(run, timeout_ms=20000):
     it = Interp(run, timeout_ms=timeout_ms)
     install_std(it)
     it.ext_modules["numpy"] = Namespace(
         "np", isnan=Native(mathlib.np_isnan, "np.isnan"), exp=Native(mathlib.np_exp, "np.exp"), log=Native(mathlib.m_log, "np.log"),
-        inf=INF, nan=float("nan"), asarray=Native(lambda ex, v: v, "np.asarray"), sum=Native(lambda ex, v: v, "np.sum"),
+        minimum=Native(_np_minimum, "np.minimum"), inf=INF, nan=float("nan"), asarray=Native(lambda ex, v: v, "np.asarray"), sum=Native(lambda ex, v: v, "np.sum"),
         int64="int64", float64="float64")
     it.ext_modules["logging"] = Namespace("logging", getLogger=Native(lambda ex, *a: Opaque("logger", info=Native(lambda ex2, *a2, **k2: None, "logger.info")), "getLogger"))
     return it
@@ -251,6 +269,12 @@ def metropolis(run, it, prop="C01"):
             if not ok:
                 return
             ctx.prove(P + "MetropolisRandomIntegrationTransition.sample/drawn-step-count-positive", N >= 1)
+        nan_stats = sorted(k for k, v in stats.items() if isinstance(v, float) and v != v)
+        ctx.run.ob(tag + "/nan-never-reaches-the-statistics", core.DISCHARGED if not nan_stats else core.FAILED, "pyvc",
+                   detail="" if not nan_stats else f"statistics {nan_stats} are NaN (a NaN Hamiltonian must be reported as acceptance probability 0; NaN statistics poison the step-size adapter)",
+                   text="every reported statistic is a number on every path, also when a Hamiltonian evaluates to NaN")
+        if nan_stats:
+            return
         failed = bool(w.failed)
         i = entry.get("i")
         oi, od = lift(w.idx(out)), lift(w.dir(out))
@@ -942,12 +966,12 @@ class FilterRun:
         setattr(self._base, name, v)
 
     def ob(self, oid, *a, **k):
-        if self._keep(oid):
+        if self._keep(oid) or "outside-subset" in oid:
             return self._base.ob(oid, *a, **k)
         return None
 
 
-C12_KEYS = ("error", "abort", "no-exception-escapes", "nan", "failed-step", "terminated-sub-tree", "loop0")
+C12_KEYS = ("error", "abort", "no-exception-escapes", "nan", "nan-never", "failed-step", "terminated-sub-tree", "loop0")
 
 
 def c12_obligations(run, tier):
